@@ -230,7 +230,7 @@ func vxPanicClass(c *vxCase, id string) string {
 				}
 			}
 		case "linear":
-			if k.Steps == "empty-map" || k.Steps == "empty-list" {
+			if strings.HasPrefix(k.Steps, "empty-map") || strings.HasPrefix(k.Steps, "empty-list") {
 				return "linear curve with empty steps"
 			}
 		}
@@ -487,6 +487,14 @@ func vxRender(c *vxCase) string {
 					w("      steps: {}\n")
 				case "empty-list":
 					w("      steps: []\n")
+				case "empty-map+minmax":
+					w("      min: 40\n      max: 80\n      steps: {}\n")
+				case "empty-list+minmax":
+					w("      min: 40\n      max: 80\n      steps: []\n")
+				case "single-list+minmax":
+					w("      min: 40\n      max: 80\n      steps:\n        - 40: 100\n")
+				case "null+minmax":
+					w("      min: 40\n      max: 80\n      steps:\n")
 				case "null":
 					w("      steps:\n")
 				case "none":
@@ -740,7 +748,8 @@ func vxEnumerate(maxNodes int, emit func(build func() vxCase)) {
 		}
 	}
 	// D. step list forms x sensor kinds
-	for _, st := range []string{"minmax", "list", "list+minmax", "map", "single-list", "single-map", "empty-map", "empty-list", "null", "none"} {
+	for _, st := range []string{"minmax", "list", "list+minmax", "map", "single-list", "single-map", "empty-map", "empty-list", "null", "none",
+		"empty-map+minmax", "empty-list+minmax", "single-list+minmax", "null+minmax"} {
 		for _, sk := range []string{"hwmon", "file", "cmd"} {
 			for nested := 0; nested < 2; nested++ {
 				st, sk, nested := st, sk, nested
@@ -1143,6 +1152,42 @@ func vxCli(path string) (int, string) {
 	return -2, s + err.Error()
 }
 
+// vxCliAuto runs the real binary WITHOUT -c: the configuration is found on the search path (./fan2go.yaml) from a working
+// directory that is owned by an ordinary user and world-writable, like a home directory or /tmp (README: `fan2go config validate`).
+func vxCliAuto(yaml string) (int, string) {
+	bin := filepath.Join(os.Getenv("VERIF_BIN"), "fan2go")
+	if os.Getenv("VERIF_BIN") == "" {
+		return -1, ""
+	}
+	if _, err := os.Stat(bin); err != nil {
+		return -1, ""
+	}
+	dir := filepath.Join(filepath.Dir(vxF.Yaml), "autodetect")
+	_ = os.MkdirAll(dir, 0o777)
+	_ = os.Chown(dir, 1234, 1234)
+	_ = os.Chmod(dir, 0o777)
+	f := filepath.Join(dir, "fan2go.yaml")
+	vxWrite(f, yaml, 0644)
+	_ = os.Chown(f, 0, 0)
+	cmd := exec.Command(bin, "--no-color", "--no-style", "config", "validate")
+	cmd.Dir = dir
+	cmd.Env = append(os.Environ(), "HOME="+filepath.Join(dir, "nohome"))
+	var out bytes.Buffer
+	cmd.Stdout, cmd.Stderr = &out, &out
+	err := cmd.Run()
+	s := out.String()
+	if len(s) > 600 {
+		s = s[:600] + "...(clipped)"
+	}
+	if err == nil {
+		return 0, s
+	}
+	if ee, ok := err.(*exec.ExitError); ok {
+		return ee.ExitCode(), s
+	}
+	return -2, s + err.Error()
+}
+
 type vxState struct {
 	rep       *mc.Report
 	childRuns map[string]int
@@ -1244,6 +1289,17 @@ func (st *vxState) runCase(c *vxCase, forceCli bool) {
 			}
 		} else if mc.Thorough() {
 			rep.HarnessError("fan2go CLI binary not found under $VERIF_BIN")
+		}
+	}
+	// the same sub-command with the configuration found on the search path; configurations with cmd entries (whose file
+	// permissions are checked) are sampled more densely
+	if forceCli || disagree || c.Idx%200 == 0 || (strings.Contains(c.Yaml, "cmd:") && c.Idx%10 == 0) {
+		if code, out := vxCliAuto(c.Yaml); code != -1 {
+			rep.Count("cli-runs-autodetected-config", 1)
+			if (code == 0) != v.Accepted {
+				st.violate(c, "C11 CLI verdict for an auto-detected configuration file differs from the in-process verdict",
+					fmt.Sprintf("`fan2go config validate` (./fan2go.yaml, root-owned 0644, in a user-owned world-writable directory) exit status %d but in-process accepted=%v (%s)\n%s", code, v.Accepted, v.Why, out))
+			}
 		}
 	}
 }
